@@ -440,10 +440,21 @@ class NearestNeighborModel(Model):
             for infinite bc ``E_bond[i]`` is the energy of bond ``i-1, i``.
 
         """
-        if self.lat.bc_MPS == 'infinite':
-            return psi.expectation_value(self.H_bond, axes=(['p0', 'p1'], ['p0*', 'p1*']))
-        # else
-        return psi.expectation_value(self.H_bond[1:], axes=(['p0', 'p1'], ['p0*', 'p1*']))
+        L = len(self.H_bond)
+        infinite = self.lat.bc_MPS == 'infinite'
+        # ``H_bond[j]`` acts on sites ``(j-1, j)``, ``None`` represents 0.
+        bonds = [j for j in (range(L) if infinite else range(1, L)) if self.H_bond[j] is not None]
+        E_bond = np.zeros(L)
+        if len(bonds) > 0:
+            # `psi.expectation_value` selects ``ops[i]`` for the (left-most) site ``i``: H_bond[i + 1]
+            ops = self.H_bond[1:] + self.H_bond[:1]
+            ops = [self.H_bond[bonds[0]] if op is None else op for op in ops]  # (placeholders are not evaluated)
+            E = psi.expectation_value(ops, sites=[j - 1 for j in bonds], axes=(['p0', 'p1'], ['p0*', 'p1*']))
+            E_bond = np.zeros(L, dtype=np.asarray(E).dtype)
+            E_bond[bonds] = E
+        if infinite:
+            return E_bond
+        return E_bond[1:]
 
     def extract_segment(self, *args, **kwargs):
         cp = super().extract_segment(*args, **kwargs)
